@@ -141,10 +141,14 @@ pub fn sweep_c15(tier: &str, seed: u64, only: &str) -> (usize, Vec<String>) {
             for _ in 0..muts {
                 let mut m = b.clone();
                 let i = rng.below(m.len());
-                match rng.below(4) {
+                match rng.below(5) {
                     0 => { m[i] = [b' ', b'\n', b'>', b'0', b'A', b'[', b']', b'\t', 0xff, b'/', b':'][rng.below(11)]; }
                     1 => { m.remove(i); }
                     2 => { m.insert(i, [b' ', b'\n', b'>', b'9', b'N', b'\t'][rng.below(6)]); }
+                    3 => { // valid multi-byte UTF-8 characters (2, 3 and 4 bytes) at arbitrary offsets, incl. right after a line start
+                        let ch = ["\u{e9}", "\u{20ac}", "\u{1f600}"][rng.below(3)].as_bytes().to_vec();
+                        let at = if rng.below(2) == 0 { i } else { m[..i].iter().rposition(|&b| b == b'\n').map(|p| p + 1 + rng.below(2)).unwrap_or(0).min(m.len()) };
+                        for (o, b) in ch.iter().enumerate() { m.insert(at + o, *b); } }
                     _ => { let j = rng.below(m.len()); let (a, c) = (i.min(j), i.max(j)); m.drain(a..c); }   // delete a span (ragged rows, headers without matrix)
                 }
                 inputs.push(m);
